@@ -174,7 +174,13 @@ def nbs_bct(x, y, thresh, k=1000, tail='both', paired=False, verbose=False, seed
         workers = multiprocessing.cpu_count()
 
     pool = multiprocessing.Pool(workers)
-    perm_args = [(seed, u, xmat, ymat, thresh, tail, paired, m, n, ixes, nx, ny, verbose, null, max_sz, hit, k) for u in range(k)]
+    if seed is None:
+        seeds = [None] * k
+    else:
+        # one independent stream per permutation, derived from the caller's seed in
+        # the parent, so that the result does not depend on how tasks are chunked
+        seeds = [int(s) for s in get_rng(seed).randint(2**31 - 1, size=k)]
+    perm_args = [(seeds[u], u, xmat, ymat, thresh, tail, paired, m, n, ixes, nx, ny, verbose, null, max_sz, hit, k) for u in range(k)]
 
     # Parallelize permutation
     null_dist = pool.map(_permutation, perm_args)
